@@ -2632,10 +2632,12 @@ spmatrix * SpMatrix_NewFromIJV(matrix *Il, matrix *Jl, matrix *V,
 
 static void spmatrix_dealloc(spmatrix* self)
 {
-  free(self->obj->values);
-  free(self->obj->colptr);
-  free(self->obj->rowind);
-  free(self->obj);
+  if (self->obj) {
+    free(self->obj->values);
+    free(self->obj->colptr);
+    free(self->obj->rowind);
+    free(self->obj);
+  }
 #if PY_MAJOR_VERSION >= 3
   Py_TYPE(self)->tp_free((PyObject*)self);
 #else
